@@ -243,6 +243,21 @@ func (vr *variableResolver) String() string {
 	return strings.Join(parts, ".")
 }
 
+// structField returns the field called name of the struct v, or the invalid
+// value if there is none. A promoted field that is only reachable through a
+// nil embedded pointer does not exist (reflect's FieldByName would panic).
+func structField(v reflect.Value, name string) reflect.Value {
+	sf, ok := v.Type().FieldByName(name)
+	if !ok {
+		return reflect.Value{}
+	}
+	field, err := v.FieldByIndexErr(sf.Index)
+	if err != nil {
+		return reflect.Value{}
+	}
+	return field
+}
+
 // argumentFits reports whether the evaluated argument can be passed for a
 // parameter of type fnArg: it has exactly that type, or the parameter is an
 // interface the argument's type implements (a nil fits every interface).
@@ -343,7 +358,7 @@ func (vr *variableResolver) resolve(ctx *ExecutionContext) (*Value, error) {
 					// Calling a field or key
 					switch current.Kind() {
 					case reflect.Struct:
-						current = current.FieldByName(part.s)
+						current = structField(current, part.s)
 						if current.IsValid() && !current.CanInterface() {
 							// Unexported fields are not accessible from templates
 							return AsValue(nil), nil
@@ -381,7 +396,7 @@ func (vr *variableResolver) resolve(ctx *ExecutionContext) (*Value, error) {
 						if err != nil {
 							return nil, err
 						}
-						current = current.FieldByName(sv.String())
+						current = structField(current, sv.String())
 						if current.IsValid() && !current.CanInterface() {
 							// Unexported fields are not accessible from templates
 							return AsValue(nil), nil
